@@ -21,7 +21,7 @@ def make_spec(g, allow):
             else:
                 cs.append((cfgno, c))
         second.append((name, cs))
-    return dict(cfgs=h.cfgs, execs=h.execs, second=second, flags=set(h.flags),
+    return dict(cfgs=h.cfgs, execs=h.execs, second=second, flags=set(h.flags), orphan=r.random() < 0.5,
                 mode2=r.choice([(False, ''), (False, 'true'), (True, ''), (False, 'clean')]),
                 skips=r.randint(0, 3), sort=r.choice(['-', '0', '1']))
 
@@ -46,6 +46,10 @@ def render(tag, spec):
     w.add(mode_line(False, ''))
     for c in spec['cfgs']:
         w.add(c)
+    if spec.get('orphan'):
+        # an obsolete file in the first snapshot directory: the summary must list it
+        d = core.unhx(spec['cfgs'][0].split()[2]).decode()
+        w.add('fsput %s %s' % (core.hx(d + '/orphan_file.snap'), core.hx(b'\n[TestOrphan - 1]\nx\n---\n')))
     texec = 0
     call_idx = []
     for name, calls in spec['execs']:
@@ -93,6 +97,12 @@ def render(tag, spec):
             return 'summary shows %r, outcomes were %r' % (nums, want)
         if sum(want.values()) == 0 and 'Snapshot Summary' in text and 'obsolete' not in text and 'removed' not in text:
             return 'summary printed with nothing to report'
+        d0 = core.unhx(spec['cfgs'][0].split()[2]).decode()
+        addressed_first_dir = any(core.unhx(spec['cfgs'][cfgno - 1].split()[2]).decode() == d0 and
+                                  [k for k, _ in Line(ww.impl[i]).events] in ([], ['L'])
+                                  for i in call_idx for cfgno in [int(ww.ops[i].split()[1])])
+        if spec.get('orphan') and addressed_first_dir and 'orphan_file.snap' not in text:
+            return 'the summary does not list the obsolete file orphan_file.snap that Clean judged obsolete'
         return None
     w.add('clean %s - 1' % spec['sort'], ('summary-equals-outcomes', oracle_sum))
     return w
@@ -107,4 +117,37 @@ def run(ctx):
     n = 150 if ctx.tier == 'quick' else 4000
     worlds = [render('c20-%d' % i, make_spec(g, ('nosafn',))) for i in range(n)]
     run_suite(ctx, 'match.outcomes', worlds, known=known, chunk=200)
+    # a snapshot that cannot be written (its directory lies under a regular file): still exactly one
+    # outcome - one failure - per call.  No model: OS error texts are not modelled.
+    io = []
+    for i in range(12 if ctx.tier == 'quick' else 200):
+        w = World('c20io-%d' % i)
+        w.add(mode_line(False, g.r.choice(['', 'true'])))
+        w.add('fsput %s %s' % (core.hx('blocker'), core.hx(b'i am a file')))
+        w.add('cfg 1 %s - - none none' % core.hx('blocker/__snapshots__'))
+        w.add('begin 1 %s' % core.hx(b'TestIO'))
+        idx = []
+        for k in range(g.r.randint(1, 4)):
+            kind = g.r.choice(['snap', 'json', 'yaml', 'sasnap', 'sajson'])
+            if kind in ('snap', 'sasnap'):
+                idx.append(w.add('%s 1 1 %s' % (kind, core.hx(b'v%d' % k))))
+            elif kind == 'yaml':
+                idx.append(w.add('yaml 1 1 s %s' % core.hx(b'a: %d\n' % k)))
+            else:
+                idx.append(w.add('%s 1 1 s %s' % (kind, core.hx(b'{"a":%d}' % k))))
+        w.add('end 1')
+
+        def exp(line, raw, ww, idx=idx):
+            import re as _re
+            for j in idx:
+                ev = Line(ww.impl[j]).events
+                if [k for k, _ in ev] != ['E']:
+                    return 'op %d: a call whose snapshot cannot be written must report exactly one failure, got %r' % (j, [(k, v[:40]) for k, v in ev])
+            m = _re.match(r'events e=(\d+) a=(\d+) u=(\d+) p=(\d+)', raw)
+            if (int(m.group(1)), int(m.group(2)), int(m.group(3)), int(m.group(4))) != (len(idx), 0, 0, 0):
+                return 'counters %s for %d failed calls' % (raw, len(idx))
+            return None
+        w.add('events', ('io-error-one-outcome', exp))
+        io.append(w)
+    run_suite(ctx, 'match.io-errors', io, known=known, use_model=False)
     findings.report(ctx, 'C20')
